@@ -16,6 +16,14 @@ type mutant struct {
 }
 
 var mutants = []mutant{
+	// operators added with the rules that the seeded changes of round 4 motivated
+	{"C04-server-name-override", "C04", "jtp/jtp.go", "tls.DialWithDialer(dialer, \"tcp\", hostport, nil)", "tls.DialWithDialer(dialer, \"tcp\", hostport, &tls.Config{ServerName: strings.TrimSuffix(link.Hostname(), \".\")})", "C04.R3"},
+	{"C05-dialer-other-timeout", "C05", "jtp/jtp.go", "\tTimeout: config.Parsed.Network.Timeout,", "\tTimeout: config.Parsed.Network.Timeout / 4,", "C05.R1"},
+	{"C05-fields-unguarded", "C05", "jtp/jtp.go", "\tif len(matches) != 2 {\n\t\treturn \"\", errors.New(\"received invalid status line: \" + text)\n\t}\n\n\treturn matches[1], nil", "\tif len(matches) != 2 {\n\t\treturn \"\", errors.New(\"received invalid status line: \" + text)\n\t}\n\n\treturn strings.Fields(matches[1])[0], nil", "C05.R8"},
+	{"C06-fields-unguarded", "C06", "gemtext/gemtext.go", "\t\t\turi := match[1]", "\t\t\turi := strings.Fields(match[1] + \" \")[0]", "C06.K9"},
+	{"C08-callback-writes-captured", "C08", "pub/post.go", "\tconstructComment := func(input any, source *url.URL) Tangible {\n\t\tcomment, err := NewPost(input, source)", "\tconstructComment := func(input any, source *url.URL) Tangible {\n\t\tvar comment *Post\n\t\tcomment, err = NewPost(input, source)", "C08.R5"},
+	{"C09-creators-loop-break", "C09", "pub/post.go", "\t\t\tif asActor.Identifier() == nil && id == nil {\n\t\t\t\tcontinue\n\t\t\t}", "\t\t\tif asActor.Identifier() == nil && id == nil {\n\t\t\t\tbreak\n\t\t\t}", "C09.R4"},
+	{"C16-height-two-ignored", "C16", "ui/ui.go", "\tif s.width == width && s.height == height {\n\t\treturn\n\t}", "\tif s.width == width && s.height == height || height <= 2 {\n\t\treturn\n\t}", "C16.R5"},
 	// operators added with the rules that the seeded changes of round 3 motivated
 	{"C01-unescape-after-scrub", "C01", "pub/link.go", "\t\t\treturn l.uri.String(), nil\n\t\t} else {\n\t\t\treturn \"\", l.uriErr", "\t\t\tdecoded, _ := url.PathUnescape(l.uri.String())\n\t\t\treturn decoded, nil\n\t\t} else {\n\t\t\treturn \"\", l.uriErr", "C01.R1"},
 	{"C01-scrub-fast-path", "C01", "ansi/ansi.go", "func Scrub(text string) string {\n", "func Scrub(text string) string {\n\tif !strings.ContainsAny(text, \"\\x1b\\x07\\x00\") {\n\t\treturn text\n\t}\n", "C01.R4"},
